@@ -16,6 +16,7 @@ SParseDemands(e, r) ==
     <<"C03.reproduce", (IsOk(r) /\ e.ok) => (IF tag THEN e.strtag = e.in ELSE e.str = e.in)>>,
     <<"C03.format",   (IsOk(r) /\ e.ok) => (e.str = FmtSem(r.v, FALSE) /\ e.strtag = FmtSem(r.v, TRUE))>>,
     <<"C18.toolong",  (IsFail(r) /\ ~e.ok /\ ~e.panic) => SentinelsOK(r, e.is)>>,
+    <<"C18.notlong",  (IsFail(r) /\ ~e.ok /\ "ErrInputTooLong" \in r.forb) => "ErrInputTooLong" \notin SeqRange(e.is)>>,  \* within the limit: never refused for its length
     <<"C18.noecho",   (IsFail(r) /\ r.req = {"ErrInputTooLong"}) => ~e.echo>>
   >>
 
